@@ -238,10 +238,10 @@ package engine
 //@   ensures s.pingIntervalTimer.v != nil
 // the ping timer body: the ping goes out and the pong deadline starts at once - not when (or if) the ping is flushed
 //@ func (*socket).schedulePing$1()
-//@   props C07
+//@   props C07, C12
 //@   requires sockLive(s)
 //@   modifies *
-//@   ensures [C07.pingsent] calls((*socket).sendPacket) == 1 && arg((*socket).sendPacket, 1, packetType) == packet.PING && calls((*socket).resetPingTimeout) == 1 && before((*socket).sendPacket, 1, (*socket).resetPingTimeout, 1)
+//@   ensures [C07.pingsent,C12.heartbeatgoeson] calls((*socket).sendPacket) == 1 && arg((*socket).sendPacket, 1, packetType) == packet.PING && calls((*socket).resetPingTimeout) == 1 && before((*socket).sendPacket, 1, (*socket).resetPingTimeout, 1)
 
 //@ func (*socket).resetPingTimeoutDuration()
 //@   props C07
@@ -457,6 +457,7 @@ package engine
 //@   modifies *
 //@   ensures [C08.check] calls(transports.Transport.Send) <= 1 && (calls(transports.Transport.Send) == 1 ==> old(s.Transport().Name()) == "polling" && old(s.Transport().Writable()) && arg(transports.Transport.Send, 1, this) == old(s.Transport()) && len(arg(transports.Transport.Send, 1, packets)) == 1 && arg(transports.Transport.Send, 1, packets)[0].Type == packet.NOOP)
 //@   ensures [C08.check.only] calls((*socket).OnClose) == 0 && calls(transports.Transport.Close) == 0 && calls((*socket).setTransport) == 0
+//@   ensures [C08.check.keeps] calls(utils.ClearInterval) == 0 && calls(utils.ClearTimeout) == 0 && calls(utils.SetInterval) == 0    // the check keeps ticking (a later poll is released too); only cleanup stops it
 
 // ---- handshake (C04 registry, C05 rejection branches, C06 one session, C10 limit copied) ---------------
 //@ func NewSocket(id, server, transport, ctx, protocol)
@@ -482,6 +483,7 @@ package engine
 //@   ensures [C04.registered] result1 != nil ==> calls((*types.Map).Store) == 1 && arg((*types.Map).Store, 1, m) == bs.clients && arg((*types.Map).Store, 1, key) == arg(NewSocket, 1, id) && arg((*types.Map).Store, 1, value) == ret(NewSocket, 1)
 //@   ensures [C04.counted]  result1 != nil ==> calls((*sync/atomic.Uint64).Add) == 1 && arg((*sync/atomic.Uint64).Add, 1, delta) == 1
 //@   ensures [C04.closehook] result1 != nil ==> ncalls(types.EventEmitter.Once, evt == "close" && this == ret(NewSocket, 1)) == 1
+//@   ensures [C04.hookfirst] result1 != nil ==> before(types.EventEmitter.Once, 1, types.EventEmitter.Emit, 1)    // the registry's close hook is in place before the application hears of the session (and may close it)
 //@   ensures [C06.order]    result1 != nil ==> before(NewSocket, 1, (*types.Map).Store, 1) && before((*types.Map).Store, 1, types.EventEmitter.Once, 1)
 //@   ensures [C06.protocol] result1 != nil ==> arg(NewSocket, 1, protocol) == (eio4 ? 4 : 3) && arg(NewSocket, 1, transport) == result1 && arg(NewSocket, 1, ctx) == ctx
 //@   ensures [C06.rev3]     result1 != nil && !eio4 ==> bs.opts.AllowEIO3()
@@ -535,11 +537,12 @@ package engine
 
 // the close listener registered by Handshake: removes exactly this id and decrements the count by one (64-bit -1)
 //@ func (*baseServer).Handshake$2()
-//@   props C04
+//@   props C04, C17
 //@   requires bs != nil && bs.clients != nil
 //@   modifies bs.clients.$mapver, bs.clientsCount
 //@   ensures [C04.unregister] calls((*types.Map).Delete) == 1 && arg((*types.Map).Delete, 1, key) == id && !uf_b_mapHas(bs.clients, id, bs.clients.$mapver)
 //@   ensures [C04.minusone]   bs.clientsCount.v == old(bs.clientsCount.v) - 1
+//@   ensures [C04.closeonly,C17.headerskept] nevents() == 1    // it only unregisters the session (the Delete; the counter update is an atomic): nothing is detached from the transport, whose remaining responses still fire 'headers'
 
 // ---- shutdown (C12, C04): every session of the table is force-closed; the table itself is edited only by each
 // session's own close listener (Handshake$2), never wholesale
